@@ -269,7 +269,12 @@ class Integer(base.SimpleAsn1Type):
             return str(self.namedValues[value])
 
         except KeyError:
-            return str(value)
+            try:
+                return str(value)
+
+            except ValueError:
+                # beyond the interpreter's int-to-str conversion limit
+                return hex(value)
 
     # backward compatibility
 
@@ -1465,6 +1470,14 @@ class Real(base.SimpleAsn1Type):
         if self._value in self._inf:
             return self._value
         else:
+            if not self._value[0]:
+                return 0.0
+
+            if self._value[2] > 1100:
+                # beyond the range of float whatever the mantissa
+                # and base, not worth exponentiating
+                raise OverflowError('Real value too large to convert to float')
+
             return float(
                 self._value[0] * pow(self._value[1], self._value[2])
             )
